@@ -135,6 +135,17 @@ func checkC15(c *Ctx, r *Report) {
 					k += "#" + string(rune('0'+seen[el+kind]))
 				}
 				sl := immediateFields(key)
+				// a key that is read back from a field written in this function carries what was written there
+				for d := range sl {
+					if d.kind != "field" || spsDom[d.name] || ppsDom[d.name] {
+						continue
+					}
+					for _, st := range storesTo(f, d.name) {
+						for k2 := range immediateFields(st.Val) {
+							sl[k2] = true
+						}
+					}
+				}
 				var own, other []string
 				for d := range sl {
 					inS, inP := spsDom[d.name], ppsDom[d.name]
@@ -163,8 +174,10 @@ func checkC15(c *Ctx, r *Report) {
 func checkC19(c *Ctx, r *Report) {
 	r.Explanation = "Narrow clauses: in InitSegment.AddEmptyTrack the track id passed to CreateEmptyTrak and to CreateTrex is the same definition and depends on the number of existing tracks; " +
 		"mvhd.NextTrackID is stored on every path (unconditionally) from that id; the trak and the trex are both attached on every path; " +
-		"(FWD) when a function of the init-segment API forwards to a callee that has a parameter of the same name and type as one of its own parameters, the argument in that position depends on that parameter (no swapped / substituted flags); " +
+		"MdhdBox.SetLanguage overwrites (does not combine with the old value); the SetAACDescriptor arm that sets parametric stereo also sets SBR and the extension frequency; (FWD) when a function of the init-segment API forwards to a callee that has a parameter of the same name and type as one of its own parameters, the argument in that position depends on that parameter (no swapped / substituted flags); " +
 		"(O-ERR) errors from the descriptor builders are looked at on every path. Does not decide encode/decode equality of the built tree or golden-file equality."
+	ruleSetterOverwrites(c, r)
+	ruleAscArms(c, r)
 	if f := c.ssaFunc(r, "DEP", "mp4", "InitSegment.AddEmptyTrack"); f != nil {
 		trak := callsIn(f, "mp4.CreateEmptyTrak", false)
 		trex := callsIn(f, "mp4.CreateTrex", false)
